@@ -291,6 +291,8 @@ PROPS = {
                      "(b) first positional of a command: offered sub-command names = rule(sub-commands); (c) every offered name appended to the line (with a value if the flag "
                      "needs one) is executed by a fresh identical tree: it must be accepted, stay in / dispatch to the right command and set the flag the name stands for"),
     "C01": dict(streams=[dict(harness="slotfrag", model="slot", oracle=None, quick=6000, thorough=60000, nontrivial=lambda f, impl: len(impl) > 1 and impl[1] != b"M"),
+                         dict(harness="tree", model=None, oracle="tree_oracle", quick=6000, thorough=80000,
+                              nontrivial=lambda f, impl: len(impl) > 3 and impl[3] in (b"P", b"D", b"F")),
                          dict(harness="slot", model=None, oracle_py=slot_oracle, quick=9000, thorough=120000,
                               nontrivial=lambda f, impl: len(impl) > 2 and impl[2] not in (b"-", b"rejected"))],
                 tie="Model/Pflag.v traverse (one command; long flags, shorthand words and chains, lone dash, --) <-> real `_carapace export` on the same flags and line: the slot (flag value + prefix / bool value / positional i / dash i / flag names / message) must be equal",
